@@ -26,3 +26,32 @@ def register(check, not_yet):
           "(Condition model with timed wake-ups) and a PySym path analysis of the Future wrapper against a contract stub.",
           "Bound: 2-3 racing threads; executors and threading primitives are environment; Condition.wait_for contract stated in evidence.",
           "SMT bounded model checking (z3), symbolic schedule; PySym for Future", "DESIGN.md section 4 C13", "B:pysym")
+    check("C07", "other",
+          "Bounded symbolic verification: for each pipeline (every listed function alone in all five application forms, sampled "
+          "pairs/triples via comp) CrossHair runs the core functions compiled from core.lpy on a symbolic input list "
+          "(nil/bool/int elements, symbolic numeric parameter) and compares with an 18-function Python reference; "
+          "PROVED = path tree exhausted. Early termination (input pulls) and completion-exactly-once are separate obligations.",
+          "Bound: input length <= 2 (quick) / 4 (thorough); pipeline shapes enumerated/sampled by VERIF_SEED, not solver-chosen. "
+          "Native LazySeq/Cons run concretely. Obligations CrossHair cannot exhaust in the time budget are reported INCONCLUSIVE.",
+          "CrossHair (z3) symbolic execution of the compiled core library vs reference model", "DESIGN.md section 4 C07", "A:crosshair")
+    check("C11", "other",
+          "Bounded symbolic verification of the binding kernel: runtime.push_thread_bindings / pop_thread_bindings / "
+          "Var.push_bindings / RefBase._validate are interpreted by PySym from an arbitrary valid pre-state with the binding map's "
+          "iteration order, each Var's dynamic flag and each validator's verdict as solver choices; z3 decides that a push either "
+          "succeeds completely or leaves every stack untouched, and that push+pop restores the state.",
+          "Cross-thread visibility and conveyance to futures are outside (threading.local / executors are environment). "
+          "Refutations are replayed on the real runtime by re-creating Vars until the real map iterates in the model's order.",
+          "SMT (z3) over a symbolic interpretation of the real Python ASTs with symbolic map iteration order", "DESIGN.md section 4 C11", "B:pysym")
+    check("C16", "other",
+          "Bounded symbolic verification of the real reader under CrossHair: input is a solver-chosen string over the delimiter/"
+          "dispatch alphabet (and a fully symbolic Unicode string in the thorough tier); totality (only SyntaxError with line/col, only "
+          "Lisp data in forms), EOF classification (metamorphic, real reader only), true spans (re-reading the span text gives an "
+          "equal form) and the StreamReader's peek/loc bookkeeping against a reference.",
+          "Bound: length <= 2-3 (quick) / 3-5 (thorough) per obligation family; obligations are split by first character for parallelism.",
+          "CrossHair (z3) symbolic execution of reader.py", "DESIGN.md section 4 C16", "A:crosshair")
+    check("C19", "other",
+          "Bounded symbolic verification of the compiled bencode/EDN/JSON namespaces under CrossHair: encode == reference encoder, "
+          "decode(encode v) = v, and for every cut position k (a solver variable) of a two-message stream decode-all returns exactly "
+          "the complete messages plus the untouched remainder, and resuming yields the rest; EDN/JSON round trips on shapes with symbolic leaves.",
+          "Bound: byte strings <= 3, 2 messages, small ints; shapes enumerated. Python's json/int()/str() are environment.",
+          "CrossHair (z3) symbolic execution of the compiled codec namespaces", "DESIGN.md section 4 C19", "A:crosshair")
